@@ -45,7 +45,8 @@ def _generators(ctx):
         isinstance(s, ast.Yield) for s in K.walk_no_nested(f.node))]
     ctx.require(len(gens) == 2, 'two queue generators in Allocation '
                                 '(found %d)' % len(gens))
-    priv = K.one([g for g in gens if 'sorted(' in ast.unparse(g.node)],
+    priv = K.one([g for g in gens if 'sorted(' in ast.unparse(g.node) and
+                  'self.apps' in ast.unparse(g.node)],
                  'generator sorting the allocation own instances')
     merged = K.one([g for g in gens if g is not priv], 'merging generator')
     return alloc, priv, merged
@@ -303,6 +304,59 @@ def _exactly_once(ctx, priv, merged):
            construct='schedule_alloc data flow')
 
 
+def _single_membership(ctx):
+    """An instance is queued by one allocation: it joins a queue only
+    after it left the allocation it was assigned to before."""
+    cell = ctx.index.get_class(K.SCHED, 'Cell')
+    nz = N.Normaliser()
+    count = 0
+    for func in cell.live_methods():
+        params = func.params()
+        graph = None
+        for sub in K.walk_no_nested(func.node):
+            if not (isinstance(sub, ast.Call) and K.is_meth(sub, 'add') and
+                    len(sub.args) == 1 and
+                    isinstance(sub.args[0], ast.Name) and
+                    'allocation' in (K.recv_text(sub) or '')):
+                continue
+            var = sub.args[0].id
+            if var not in params:
+                continue
+            graph = graph or ctx.cfg(func)
+            site = [n for n, _c in K.nodes_calling(graph,
+                                                   lambda c: c is sub)]
+            if not site:
+                continue
+            count += 1
+            cur = '%s.allocation' % var
+
+            def left(edge, cur=cur, var=var, func=func):
+                if edge.kind == 'exc':
+                    return False
+                for call in C.node_calls(edge.src):
+                    if K.is_meth(call, 'remove') and call.args and \
+                            K.rtxt(func, K.recv(call)) == cur and \
+                            K.rtxt(func, call.args[0]) == '%s.name' % var:
+                        return True
+                for atom in nz.facts_of_edge(edge):
+                    key = atom.key
+                    if key[0] == 'truth' and not key[2] and key[1] == cur:
+                        return True
+                    if key[0] == 'is' and key[1] == cur and \
+                            key[2] == 'None' and key[3]:
+                        return True
+                return False
+            ok = K.guarded_by(graph, site[0], left)
+            ctx.ob('C06.5', func, site[0], ok,
+                   'the instance joins an allocation queue only after it '
+                   'was removed from the allocation it belonged to '
+                   '(%s.remove(%s.name)), so no two queues yield it'
+                   % (cur, var),
+                   construct='single membership before ' +
+                   site[0].text(40))
+    ctx.require(count >= 1, '<allocation>.add(<instance>) in Cell')
+
+
 def _unplaced(ctx):
     loop = PlacementLoop(ctx)
     nz = loop.nz
@@ -384,6 +438,7 @@ def check(ctx):
     _sentinel(ctx, priv, merged)
     _layout(ctx, priv, merged)
     _exactly_once(ctx, priv, merged)
+    _single_membership(ctx)
     _unplaced(ctx)
     _manifest_priority(ctx)
 
